@@ -512,7 +512,9 @@ var memShapes = append(bigThenSmallShapes(), []memShape{
 	{"unicode_escaped_keys_at_every_level", func(n int) []seg { return nestSegs(`{"\u00e9":`, "1", "}", n) }},
 	{"surrogate_pairs_at_every_nesting_level", func(n int) []seg { return nestSegs(`{"k":["\ud83d\ude00",`, "1", "]}", n) }},
 	{"escapes_many_unicode_escaped_strings", func(n int) []seg { return []seg{{[]byte("["), 1}, {[]byte(`"\u00e9",`), n}, {[]byte(`1]`), 1}} }},
-	{"escapes_many_unicode_escaped_keys", func(n int) []seg { return []seg{{[]byte("{"), 1}, {[]byte(`"\u00e9":"x\u0041",`), n}, {[]byte(`"z":1}`), 1}} }},
+	{"escapes_many_unicode_escaped_keys", func(n int) []seg {
+		return []seg{{[]byte("{"), 1}, {[]byte(`"\u00e9":"x\u0041",`), n}, {[]byte(`"z":1}`), 1}}
+	}},
 	{"escapes_wide_in_objects", func(n int) []seg { return []seg{{[]byte("{"), 1}, {[]byte(`"\t":"\n",`), n}, {[]byte(`"z":1}`), 1}} }},
 }...)
 
